@@ -1,5 +1,4 @@
 import BridgeVerif.Lemmas.Auction
-import BridgeVerif.Translated.Auction
 /-!
 # C02 — The auction proceeds clockwise from the dealer and ends exactly when it must
 `EndedLaw h` : four passes open the auction, or three consecutive passes follow a bid, double or redouble.
@@ -82,23 +81,6 @@ theorem after_end_run_unchanged (d : Seat) (v : Vul) (s : AState) (h : List Call
 /-- every auction terminates: no history the Laws allow is longer than 319 calls -/
 theorem auction_terminates (d : Seat) (h : List Call) (hl : LegalLaw d h) : h.length ≤ 319 :=
   legal_length_le_319 d h ((legal_iff_legalLaw d h).2 hl)
-
-/-! ## For `BiddingPhase` AS TRANSLATED from the source on this run: every run of the translated object is the model's
-run (`Translated/Auction.lean`, symbolic execution of `Generated/PyCore.lean` under MiniPy), so turn order, per-seat
-shares and the end condition above are statements about the code -/
-
-/-- from ANY model state, offering any calls to the translated object gives the model's answers and final state -/
-theorem translated_run_is_model (s : AState) (cs : List Call) :
-    Translated.runTranslated (Translated.encState s) cs =
-      ((Translated.encState (runAuction s cs).1), (runAuction s cs).2.map (fun r => match r with
-        | .error () => .error (.exc Py.K.Exception) | .ok r => .ok (Translated.encRes r))) :=
-  Translated.run_translated_from s cs
-
-/-- the translated `has_done()` -/
-theorem translated_has_done_is_model (s : AState) :
-    Translated.P.runMethod Generated.PyCore.n_BiddingPhase Generated.PyCore.n_has_done [Translated.encState s]
-      = .ok (.bool s.hasDone, Translated.encState s) :=
-  Translated.has_done_translated s
 
 /-! ### non-vacuity -/
 /-- the longest auction: P P P then 35 × (bid P P X P P XX P P) then P — 319 calls, and it is legal -/
